@@ -450,23 +450,27 @@ Lemma scorecov_ok_sound n T lams scs Z : scorecov_ok oR n T lams scs Z = true ->
   (i <> j -> nth i scs 0 * nth j scs 0 * (s * s) <= (tolR 20 * T) * (tolR 20 * T)).
 Proof.
   unfold scorecov_ok. intros H. apply andb_true_iff in H as [H H3]. apply andb_true_iff in H as [H1 H2].
-  apply N.eqb_eq in H1. repeat split.
+  apply N.eqb_eq in H1. split; [|split].
   - rewrite <- H1. rewrite Nnat.Nat2N.id. reflexivity.
   - apply Forall_forall. intros z Hz. rewrite forallb_forall in H2. apply Nat.eqb_eq. apply (H2 z Hz).
-  - destruct (projcov_ok_entries T lams scs _ H3 i j H0 H4) as [A _]. exact A.
-  - destruct (projcov_ok_entries T lams scs _ H3 i j H0 H4) as [_ B]. exact B.
+  - cbv zeta. intros i j Hi Hj. exact (projcov_ok_entries T lams scs _ H3 i j Hi Hj).
 Qed.
 
 (* an entry of the sample covariance is the centred cross moment of two columns divided by n-1 *)
+Lemma nth_map_seq {A} (f : nat -> A) d m i : (i < m)%nat -> nth i (map f (seq 0 m)) d = f i.
+Proof.
+  intros Hi. rewrite (nth_indep _ d (f 0%nat)) by (rewrite map_length, seq_length; exact Hi).
+  rewrite map_nth, seq_nth by exact Hi. reflexivity.
+Qed.
 Lemma cov_entry n m (Z : list (list R)) i j : (i < m)%nat -> (j < m)%nat ->
   let Zc := centre oR Z (emean oR (of_N oR n) (cols oR m Z)) in
   nth j (nth i (cov oR n m Z) []) 0 = Rdot (column oR i Zc) (column oR j Zc) / (INR (N.to_nat n) - 1).
 Proof.
-  intros Hi Hj. cbv zeta. unfold cov, gram, cols.
-  rewrite (nth_map_lt _ _ [] []) by (rewrite map_length, seq_length; exact Hi).
-  rewrite (nth_map_lt _ _ [] 0) by (rewrite map_length, seq_length; exact Hj).
-  rewrite !(nth_map_lt _ _ 0%nat []) by (rewrite seq_length; assumption).
-  rewrite !seq_nth by assumption. rewrite dot_Rdot. reflexivity.
+  intros Hi Hj. cbv zeta. unfold cov.
+  set (Zc := centre oR Z (emean oR (of_N oR n) (cols oR m Z))).
+  unfold gram, cols. rewrite map_map.
+  rewrite (nth_map_seq _ [] m i Hi). rewrite map_map. rewrite (nth_map_seq _ 0 m j Hj).
+  rewrite dot_Rdot. reflexivity.
 Qed.
 
 (* ========================================================================================== *)
